@@ -470,7 +470,7 @@ func (sf IntLatLngSnapper) MinVertexSeparation() s1.Angle {
 	//    only select a new site when it is at least snapRadius away from all
 	//    existing sites, and snapping a vertex can move it by up to
 	//    ((1 / sqrt(2)) * sf.to) degrees.
-	return maxAngle((math.Sqrt2/3)*sf.snapRadius,
+	return maxAngle(0.471*sf.snapRadius, // sqrt(2) / 3 in the plane
 		sf.snapRadius-s1.Degree*s1.Angle(1/math.Sqrt2)*sf.to)
 }
 
